@@ -10,10 +10,12 @@ from .dispatch import strip_conv
 NEXT_CALLS = set(H.NEXT_CALLS)
 
 
-def drains(F, fn):
-    """(problems, n_loops): problems is a list of human-readable reasons (empty = every loop drains its container)"""
+def drains(F, fn, visitor_calls=False):
+    """(problems, n_loops): problems is a list of human-readable reasons (empty = every loop drains its container).
+    visitor_calls: fn is a decoder that hands a shared visitor to `deserialize_seq`; the visitor's visit_seq is expanded in place."""
     n_loops = len([x for x in H.walk(fn["body"]) if x.get("k") == "loop"])
     sym = S.Sym(F, fn, is_effect=lambda callee, args, node, st: callee in NEXT_CALLS)
+    sym.visitor_calls = visitor_calls
     try:
         paths = sym.run()
     except S.TooManyPaths:
